@@ -222,6 +222,20 @@ pub fn random_stream<R: Rng>(rng: &mut R, items: usize, healthy: bool) -> Vec<u8
 
 pub fn random(run: &mut Runner, seed: u64, count: u64) {
     let mut rng = rng_from(seed, 7);
+    // very long runs of entries without a scaler block in between (a whole run's FIFO is parsed in one call
+    // by the analysis program): 2^15 + a few entries, at once and in three pieces
+    {
+        let n = (1usize << 15) + 7;
+        let mut s = Vec::with_capacity(4 * n + 300);
+        for _ in 0..n {
+            if rng.gen_bool(0.9) { s.extend(word_ts(&mut rng)) } else { s.extend(word_mk(&mut rng)) }
+        }
+        s.extend(block(&mut rng));
+        s.extend(word_ts(&mut rng));
+        run_pieces(run, "long-once", &[(s.clone(), true)]);
+        let a = s.len() / 3 + 1;
+        run_pieces(run, "long-pieces", &[(s[..a].to_vec(), true), (s[a..2 * a].to_vec(), false), (s[2 * a..].to_vec(), true)]);
+    }
     for ci in 0..count {
         let items = match rng.gen_range(0..10) {
             0 => 0,
